@@ -16,7 +16,7 @@ RULE = (
     "Cases: exactly the stated family - base load 5-50, slopes 0.3-3 per degree, heating balance 45-58F, cooling balance 64-75F, "
     "shape in {heating, cooling, both, flat}, identical behaviour on all days and seasons, a generated weather year (mean 45-70F, "
     "amplitude 15-30F, AR(1) noise, either hemisphere) and a second weather year, 8 zones, multiplicative noise <= 1% from a "
-    "drawn seed; daily meters (default, i.e. current, profile and the legacy profile) and monthly-billed meters (default billing "
+    "drawn seed; daily meters (default, i.e. current, profile and the legacy profile; one legacy case in four re-uses a model object fitted on another building before) and monthly-billed meters (default billing "
     "profile; usage summed per calendar month). Cases with fewer than 30 days in an active regime are discarded (rate reported). "
     "Oracle: NRMSE between predict() and the generating curve <= 5% of mean usage on the baseline year and on the other year "
     "(billing: on calendar-month totals), and total heating (cooling) load <= 5% of total usage where the generator has none. "
@@ -32,7 +32,7 @@ ZONES = ["America/Chicago", "America/New_York", "America/Los_Angeles", "Europe/L
 @st.composite
 def cases(draw, family=None):
     fam = family or draw(st.sampled_from(["daily", "daily_legacy", "billing"]))
-    shape = draw(st.sampled_from(["heating", "cooling", "both", "flat"]))
+    shape = draw(st.sampled_from(["heating", "cooling", "cooling", "both", "flat"]))
     c = {"kind": "recover", "family": fam, "shape": shape, "base": draw(st.floats(5, 50)),
          "hs": draw(st.floats(0.3, 3)) if shape in ("heating", "both") else 0.0, "hb": draw(st.floats(45, 58)),
          "cs": draw(st.floats(0.3, 3)) if shape in ("cooling", "both") else 0.0, "cb": draw(st.floats(64, 75)),
@@ -40,6 +40,8 @@ def cases(draw, family=None):
          "weather": {"mean": draw(st.floats(45, 70)), "amp": draw(st.floats(15, 30)), "sd": draw(st.floats(2, 7)), "south": draw(st.booleans())},
          "wseed": draw(st.integers(0, 2 ** 20)), "wseed2": draw(st.integers(0, 2 ** 20)), "noise": draw(st.sampled_from([0.0, 0.002, 0.01])),
          "nseed": draw(st.integers(0, 2 ** 20))}
+    # one case in four re-uses a model object that was fitted on another building before
+    c["prefit"] = draw(st.sampled_from([None, None, None, "heating", "cooling", "flat"]))
     return c
 
 
@@ -62,7 +64,7 @@ def judge(c, rec):
     rng = np.random.default_rng(c["nseed"])
     obs = y * (1 + c["noise"] * np.clip(rng.normal(0, 0.5, len(y)), -1, 1))
     fam = c["family"]
-    cls = ["family=" + fam, "shape=" + c["shape"]]
+    cls = ["family=" + fam, "shape=" + c["shape"], "reused-model=%d" % bool(c.get("prefit") and fam == "daily_legacy")]
     idx2, T2, y2 = gen_year(c, c["start_day"] + 365 + 30, c["wseed2"])
     with contextlib.redirect_stdout(io.StringIO()):
         if fam == "billing":
@@ -77,7 +79,12 @@ def judge(c, rec):
             p2 = m.predict(rep2, ignore_disqualification=True)
         else:
             data = em.DailyBaselineData(pd.DataFrame({"temperature": T, "observed": obs}, index=idx), is_electricity_data=True)
-            m = (em.DailyModel(model="legacy") if fam == "daily_legacy" else em.DailyModel()).fit(data, ignore_disqualification=True)
+            m = em.DailyModel(model="legacy") if fam == "daily_legacy" else em.DailyModel()
+            if c.get("prefit") and fam == "daily_legacy":
+                pre = {"heating": {"base": 30.0, "hs": 2.5, "hb": 55.0}, "cooling": {"base": 8.0, "cs": 2.5, "cb": 66.0}, "flat": {"base": 40.0}}[c["prefit"]]
+                yp = synth.curve(T, pre) * (1 + 0.005 * np.sin(np.arange(len(T))))
+                m.fit(em.DailyBaselineData(pd.DataFrame({"temperature": T, "observed": yp}, index=idx), is_electricity_data=True), ignore_disqualification=True)
+            m.fit(data, ignore_disqualification=True)
             rep2 = em.DailyReportingData(pd.DataFrame({"temperature": T2}, index=idx2), is_electricity_data=True)
             p1 = m.predict(data, ignore_disqualification=True)
             p2 = m.predict(rep2, ignore_disqualification=True)
@@ -126,7 +133,7 @@ def shards(tier, seed):
     for i in range(8):
         out.append({"family": "daily", "n": 5 if q else 60, "seed": mix(seed, ID, "daily", i)})
     for i in range(4):
-        out.append({"family": "daily_legacy", "n": 12 if q else 150, "seed": mix(seed, ID, "legacy", i)})
+        out.append({"family": "daily_legacy", "n": 45 if q else 400, "seed": mix(seed, ID, "legacy", i)})
     for i in range(4):
         out.append({"family": "billing", "n": 10 if q else 120, "seed": mix(seed, ID, "billing", i)})
     return out
